@@ -21,6 +21,7 @@ META = dict(
     required_hits=["pool_worker_processes", "bitwise_compared"],
     max_inconclusive_frac=0.1,
 )
+META["level_text"] += ' Every third card uses linear interpolation; NNLO cards with the coupling reference on the bottom matching scale are run over the pool sizes.'
 
 
 def digest(res):
